@@ -671,7 +671,7 @@ func runC10(a Args) tr.Summary {
 
 type c09Case struct {
 	Kind    string `json:"kind"`
-	Mode    string `json:"mode"` // reverse | shuffle | dup | stray | wrap | wrap-high | rcall...
+	Mode    string `json:"mode"` // reverse | shuffle | dup | stray | wrap | wrap-high | high | rcall...
 	Callers int    `json:"callers"`
 	Calls   int    `json:"calls"`
 	Seed    int64  `json:"seed"`
@@ -745,8 +745,23 @@ func c09Run(t *tr.Writer, id int, c c09Case) {
 		}
 		return
 	}
+	// mode high: from the second round on the connections' counters are moved to identifiers that use every
+	// byte of the header (what thousands to billions of earlier requests would do), one of them just below
+	// the wrap-around
+	high := []uint32{0x00010000, 0x00fe00fd, 0x7ffffff8, 0x12345678, 0x00800000, 0x7f000000, 0x0000ff00, 0x01000000, 0x00ffffff, 0x40000001}
 	for round := 1; round <= c.Calls; round++ {
 		Watch(id, tr.Rec{"kind": c.Kind, "mode": c.Mode}, c)
+		if c.Mode == "high" && round > 1 {
+			v := high[(round-2+int(c.Seed))%len(high)]
+			if c.Kind == "udp" {
+				v = (v ^ v>>16) & 0x7fff
+			}
+			e.mu.Lock()
+			for ca := range e.conns {
+				e.setCounter(ca, int32(v&0x7fffffff))
+			}
+			e.mu.Unlock()
+		}
 		chans := make([]chan muxRet, c.Callers)
 		for cc := 1; cc <= c.Callers; cc++ {
 			chans[cc-1] = e.call(cc, round, 0)
@@ -812,7 +827,7 @@ func runC09(a Args) tr.Summary {
 		reps, callers, calls = 10, 32, 12
 	}
 	for _, kind := range []string{"tcp", "unix", "udp", "ws"} {
-		for _, mode := range []string{"reverse", "shuffle", "dup", "stray", "wrap", "wrap-high"} {
+		for _, mode := range []string{"reverse", "shuffle", "dup", "stray", "wrap", "wrap-high", "high"} {
 			for r := 0; r < reps; r++ {
 				if strings.HasPrefix(mode, "wrap") && r > 0 {
 					continue
